@@ -125,6 +125,17 @@ def _pythagorean(limit: int) -> list[tuple[int, int, int]]:
     return out
 
 
+def _sums_of_two_squares(limit: int) -> dict[int, list]:
+    out: dict[int, list] = {}
+    for a in range(0, limit + 1):
+        for b in range(a, limit + 1):
+            out.setdefault(a * a + b * b, []).append((a, b))
+    return out
+
+
+SUM2 = _sums_of_two_squares(100)
+
+
 def random_cases(rng: random.Random, n: int) -> list[dict]:
     """Sweeps with radii up to 40 and offsets up to 100, first centre and direction arbitrary; half of the points
     of every sweep are forced onto a case boundary or a closed-form configuration."""
@@ -151,6 +162,11 @@ def random_cases(rng: random.Random, n: int) -> list[dict]:
             pts.add((r1, r1))                               # D2 = 2 r^2
             for (a, b) in by_h.get(r1, []):                 # D2 = r^2
                 pts.add((a, b))
+        # just inside / just outside each tangency: squared distance (r1 +- r2)^2 + k, |k| <= 3 (relative gap k / (2 R^2))
+        for h in (r1 + r2, abs(r1 - r2)):
+            for k in (-3, -2, -1, 1, 2, 3):
+                for (a, b) in SUM2.get(h * h + k, [])[:2]:
+                    pts.add((a, b))
         lim = min(NCR, r1 + r2 + 3)
         for _i in range(12):
             pts.add((rng.randint(0, lim), rng.randint(0, lim)))
